@@ -1150,7 +1150,7 @@ def _jtag(ip, st, j):
 
 @spec_builtin("jhas")
 def _jhas(ip, st, j, k):
-    return as_value("bool", V.j_dhas(j.term, to_term(k)))
+    return as_value("bool", V.dhas(st, j.term, to_term(k)))
 
 
 @spec_builtin("jget")
